@@ -224,7 +224,7 @@ func runC20(env *lib.Env, rep *lib.Report) {
 			return
 		}
 		f := &lib.Failure{Kind: "console", Detail: fmt.Sprintf("[%s, read chunk %d] typed %q\n expected %q\n got      %q\n %s", family, chunk, clip(input), clipAll(want), clipAll(got), problem), Trace: []string{family, input, fmt.Sprint(chunk)}}
-		if _, open := known["D23-input-beyond-4096-runes-dropped"]; open && len([]rune(strings.ReplaceAll(input, "\r", " "))) > 4096+1 {
+		if _, open := known["D23-input-beyond-4096-runes-dropped"]; open && c20MaxPending(input) > 4096 {
 			f.Known = "D23-input-beyond-4096-runes-dropped"
 		}
 		key := family + "|" + strings.SplitN(problem, " ", 3)[0] + f.Known
@@ -324,6 +324,24 @@ func runC20(env *lib.Env, rep *lib.Report) {
 			}
 		}
 	}
+	// (3c) a long session: several hundred statements typed into one terminal, one per line and several per line
+	// (whatever the line editor keeps of what was typed before - history, buffers - must not get in the way)
+	for _, perLine := range []int{1, 3} {
+		var sb strings.Builder
+		var want []string
+		for i := 0; i < 330; i++ {
+			st := fmt.Sprintf("INSERT INTO t VALUES (%d, 'row;%d');", i, i)
+			want = append(want, st)
+			sb.WriteString(st)
+			if i%perLine == perLine-1 {
+				sb.WriteString("\r")
+			} else {
+				sb.WriteString(" ")
+			}
+		}
+		wantOverride = want
+		check(fmt.Sprintf("long-session/%d-per-line", perLine), []string{strings.TrimSuffix(sb.String(), "\r")}, nil, "", 0)
+	}
 	wantOverride = nil
 	// (4) end to end through the real console loop: runTerminal on a pseudo-terminal, a real session
 	// and a real database; what the engine was handed is read back from the database afterwards
@@ -334,6 +352,34 @@ func runC20(env *lib.Env, rep *lib.Report) {
 	rep.Bounds["read chunk sizes"] = "1, 2, 255, whole input"
 	rep.Bounds["line breaks"] = "CR (what a raw-mode terminal delivers for Enter and for pasted newlines); bare LF is not a key the terminal knows and is outside the enumeration; bracketed-paste markers are never sent because the console does not enable bracketed paste"
 	rep.Bounds["submissions enumerated (all shards)"] = n
+}
+
+// c20MaxPending: the largest number of characters the console has to hold at once for this input - text accumulates
+// line by line until a line ends with everything typed so far forming complete statements (the D23 predicate is
+// about one such accumulation exceeding 4096 characters, not about the length of a whole session).
+func c20MaxPending(input string) int {
+	max := 0
+	pending := ""
+	for _, line := range strings.Split(input, "\r") {
+		if pending != "" {
+			pending += " "
+		}
+		pending += line
+		if n := len([]rune(pending)); n > max {
+			max = n
+		}
+		done := c20RefSplit(pending)
+		rest := pending
+		for _, st := range done {
+			if i := strings.Index(rest, st); i >= 0 {
+				rest = rest[i+len(st):]
+			}
+		}
+		if strings.TrimSpace(rest) == "" && len(done) > 0 {
+			pending = ""
+		}
+	}
+	return max
 }
 
 // c20RefSplit is the reference meaning of a typed text (line breaks already replaced by blanks): statements end
